@@ -4,9 +4,9 @@ package main
 
 func init() {
 	register(&propSpec{
-		ID:    "C15",
-		Level: "other",
-		Run:   runC15,
+		ID:          "C15",
+		Level:       "other",
+		Run:         runC15,
 		Explanation: "Per-operation refinement (as C13): Context.Commit/Rollback/TransactionWriteRegister, RATCommit/RATRollback/RATFlush/InitRAT/TransactionRATWrite, registerRead and the rename table comp.RAT (Read, Find, Write, Values, FindValues, NewRAT) are reduced to normal forms — map iteration and ring scans as generic loop summaries whose bodies carry the strictness of `sequenceID < s`, the `<=` tag bound of reads, the induction variable that indexes the ring, and the lazily grown ring that bounds the wrapped scan — and compared with the reference model spec/risc_state.go.txt. With every operation equal to the model's, every history of writes/reads/commit/rollback/flush conforms by induction.",
 		Assumptions: []string{
 			"within the ring capacity (uncommitted writes to one register <= ring length); beyond it only Write/Read/Values are covered",
